@@ -52,6 +52,21 @@ CHECKS = {
         technique="Lean 4 theorems about a hand-written model of the SsbScript decompiler (OpsLabelJumpToResolver, process_op_for_jump, SsbScriptSsbDecompiler) and compiler (SsbScriptCompilerListener parse events, OpsLabelJumpToRemover) on a statement AST + exact model-vs-implementation correspondence (text of the real decompiler parsed with the repo's own parser, real compiler output) + property oracle on real objects",
         text="Kernel-checked theorem ssbscript_roundtrip for all routine sets in the class WF' (any number of routines of the five kinds incl. empty ones, arbitrary opcode names and parameters, unreachable ops, jumps between routines; strictly increasing offsets; every jump-table op carries its int target, an op offset of the set, as last parameter at the table index; headers expressible in SsbScript): decompile then compile succeeds and returns the same routine count, kinds, targets, coroutine names, the same ops in order with equal parameters, each jump parameter denoting the op at the position of the original target (order-preserving bijective renumbering). Supporting theorems: the compiler is independent of label ids (compile_by_name, all ASTs), labels bind to the next op also across routine boundaries, alias routines, jump marker not last is dropped; counterexample theorems show each WF' clause is needed. The model is compared with the real code on every run.",
         note=COMMON_NOTE + "The model starts at the statement AST: the text layer is covered differentially (the real decompiler's text is parsed by the repository's own SsbScript parser into the AST and compared with the model's AST; harness/astdump_ssbs.py is trusted glue, cross-checked by astdump(print(ast)) == ast) and the printing/lexing of parameter literals belongs to C04. Known finding opcode_name_is_keyword: opcode names that are SsbScript keywords do not survive (ParseError)."),
+    "C02": dict(
+        level="translation_validation", design="4/C02",
+        technique="translation validation: Lean 4 kernel-checked equivalence checker (check_sound) on the real decompiler's output (parsed text vs input; recompiled text vs input), per input",
+        text="For every generated well-formed routine set (checked by the Lean machine: every path ends, no Jump-only cycle) the real decompiler's text is parsed with the repo's parser, given meaning by the Lean source semantics and validated against the input on the Lean SSB machine by the proven checker; the text is also compiled with the real compiler and validated machine-vs-machine; routine tables are compared. No forall-inputs statement about the decompiler (igraph heuristics) is claimed. Input classes on which the pinned decompiler is wrong are known findings identified by a shape predicate of the input.",
+        note=TV_NOTE + "The decompiler is not modelled. String parameters are kept inside C04's guard. A dungeon-mode number may come back as its constant."),
+    "C06": dict(
+        level="other", design="4/C06",
+        technique="Lean 4 proof of the fallback path (SsbScript round trip theorem ESV.C07.ssbscript_roundtrip) + exploration of totality on generated well-formed routine sets with op-for-op comparison of every fallback through the real compiler",
+        text="Proof: the fallback text is the SsbScript decompiler's output; its exactness (compile(decompile x) reproduces x op for op) and the absence of exceptions on well-formed input are kernel-checked theorems over all routine sets. Exploration: that convert() answers at all (Python exception flow through igraph-based passes) cannot be a theorem here; it is explored on compiler-shaped and random well-formed routine sets (irreducible loops, jumps into blocks, jump-only routines), and each fallback produced is checked for the marker line and compiled back with the real ExplorerScript compiler.",
+        note=COMMON_NOTE + "Totality of the structured path is explored, not proved."),
+    "C13": dict(
+        level="translation_validation", design="4/C13",
+        technique="per-input validation: decidable predicates (no jump statement, operations printed exactly once) on the parsed decompiler output + Lean kernel-checked behavioural validation",
+        text="Flat structured programs are generated, compiled by the real compiler, decompiled by the real decompiler; the decompiled text must be ExplorerScript (no fallback), contain no jump statement, print every operation of the source exactly once, and (C02 machinery) be behaviourally equal to the compiled routines by the proven checker. Known findings: switch cases consisting only of break; default grouped with a case.",
+        note=TV_NOTE + "The decompiler is not modelled; the claim is per explored input."),
     "C14": dict(
         level="proof", design="4/C14",
         technique="Lean 4 theorems about a hand-written model of source_map.py (serialize/deserialize/rewrite_offsets) + exact model-vs-implementation correspondence + property oracle on real objects",
